@@ -106,6 +106,81 @@ def check_lock_order(ctx: Ctx, locks: LockSets, oid: str) -> None:
                 ob.violation(fi, n, f"lock-order cycle: {a} -> {b} and {b} ->* {a}", construct=f"{a}->{b}")
 
 
+def check_primary_loop(repo: Repo, ob) -> None:
+    """the primary loop of the pool: leaves only with an empty/consumed mailbox, clears its wake-up only under the lock,
+    samples the shutdown flag under the lock, and does leave once shutdown was triggered (shared: C09.d, C11.g)"""
+    fi = repo.func(f"{POOL}.integrate_as_primary_thread")
+    al = local_aliases(repo, fi)
+    cfg = build_cfg(repo, fi, Oracle(repo, fi, precise=True))
+    # on value terms; the mailbox and the shutdown flag are *volatile* (another thread writes them): every read is a
+    # value of its own, so `reply is self._primary_thread_task` really compares the fetched task with a second read
+    from ..terms import NONE as _NONE, Evaluator as _Evaluator, const as _c
+    evp = _Evaluator(repo, fi, cfg)
+    evp.volatile = {MAILBOX, "self._shuttingdown"}
+    LOCKT = ("sym", "self._running_lock")
+    heads = {n.id for n in cfg.nodes if n.kind in ("test", "for") and isinstance(n.owner, (ast.While, ast.For))}
+    n_exits = n_iter = 0
+    sd_exit = False
+    seen_clear = set()
+    for (pth, st_) in evp.run(back_stops=heads, limit=40000):
+        waits_ = [e for e in st_.events if e.kind == "call" and e.callee == f"{READY}.wait"]
+        if not waits_:
+            continue
+        after = st_.events[st_.events.index(waits_[-1]):]
+        fetches = [e for e in after if e.kind == "assign" and e.value[0] == "read" and e.value[2] == MAILBOX]
+        if not fetches:
+            if pth[-1][0] == cfg.exit.id:
+                ob.violation(fi, fi.node, "the primary loop is left after a wake-up without looking at the mailbox", construct="exit without fetch")
+            continue
+        F = fetches[0].value
+        later = st_.events[st_.events.index(fetches[0]):]
+        # conditions established after the fetch, with the locks held when they were tested
+        c0 = fetches[0].ncond
+        conds = list(zip(st_.cond[c0:], st_.cond_held[c0:]))
+        none_ev = any(t == ("cmp", "is", F, _NONE) and v is True for ((t, v), _h) in conds)
+        same_ev = any(t[0] == "cmp" and t[1] == "is" and F in (t[2], t[3]) and any(x[0] == "read" and x[2] == MAILBOX and x != F for x in (t[2], t[3])) and v is True and LOCKT in h
+                      for ((t, v), h) in conds)
+        not_none = any(t == ("cmp", "is", F, _NONE) and v is False for ((t, v), _h) in conds)
+        runs = [e for e in later if e.kind == "call" and e.callee == "self._perform_spawn" and e.args[:1] == (F,)]
+        # ready.clear() only if no new task was posted (same task still in the mailbox, tested under the lock)
+        for e in later:
+            if e.kind == "call" and e.callee == f"{READY}.clear":
+                cc = list(zip(st_.cond[c0:e.ncond], st_.cond_held[c0:e.ncond]))
+                ok = LOCKT in e.held and any(t[0] == "cmp" and t[1] == "is" and F in (t[2], t[3]) and v is True and LOCKT in h and
+                                             any(x[0] == "read" and x[2] == MAILBOX and x != F for x in (t[2], t[3])) for ((t, v), h) in cc)
+                if id(e.node) not in seen_clear or not ok:
+                    seen_clear.add(id(e.node))
+                    ob.site(fi, e.node, "ready.clear() only if no new task was posted", ok=ok)
+                if not ok:
+                    ob.violation(fi, e.node, "ready.clear() is not guarded by `reply is self._primary_thread_task` under the lock: a freshly posted task loses its wake-up")
+        # the shutdown flag that steers leaving / clearing must be sampled while the pool lock is held
+        for ((t, v), _h) in conds:
+            if t[0] == "read" and t[2] == "self._shuttingdown" and LOCKT not in st_.read_held.get(t[1], ()):
+                ob.violation(fi, fetches[0].node, "the shutdown flag that decides between leaving and clearing the wake-up is read outside _running_lock: a trigger_shutdown() "
+                                                 "arriving in between is missed -- the primary thread clears its event and waits forever, the worker never leaves serve()",
+                             construct="_shuttingdown read unlocked")
+        end = pth[-1][0]
+        if end == cfg.exit.id:
+            n_exits += 1
+            if any(t[0] == "read" and t[2] == "self._shuttingdown" and v is True for ((t, v), _h) in conds):
+                sd_exit = True
+            ob.site(fi, fi.node, "loop exit path", reply_is_None=none_ev, reply_is_mailbox_under_lock=same_ev)
+            if not (none_ev or same_ev):
+                ob.violation(fi, fi.node, "the primary loop is left without evidence that the mailbox holds nothing unconsumed (neither `reply is None` nor `reply is self._primary_thread_task` under the lock)",
+                             construct="loop exit without mailbox evidence", path=cfg.describe_path(pth))
+        if end == cfg.exit.id or (end in heads and pth[-1][1] != ""):
+            n_iter += 1
+            if not none_ev and not runs:
+                ob.violation(fi, fetches[0].node, "a reply taken from the mailbox can be skipped without being executed", path=cfg.describe_path(pth))
+            if none_ev and runs:
+                ob.violation(fi, fetches[0].node, "the primary loop runs a task although the mailbox was empty")
+    ob.require(n_exits >= 2, f"{n_exits} exit paths of the primary loop (floor 2)")
+    ob.require(n_iter >= 3, f"{n_iter} iteration paths of the primary loop (floor 3)")
+    ob.site(fi, fi.node, "an exit guarded by _shuttingdown exists (busy primary leaves after shutdown)", ok=sd_exit)
+    if not sd_exit:
+        ob.violation(fi, fi.node, "no loop exit is taken when _shuttingdown is set after a task: the primary thread would never leave", construct="no-shutdown-exit")
+
+
 def check(ctx: Ctx) -> None:
     repo = ctx.repo
     ctx.decides = ("lock discipline of the pool state, no blocking under the pool lock, guarded one-slot mailbox, "
@@ -204,67 +279,7 @@ def check(ctx: Ctx) -> None:
     al = local_aliases(repo, fi)
     cfg = build_cfg(repo, fi, Oracle(repo, fi, precise=True))
     with ctx.obligation("C09.d", "loop-exit-guard") as ob:
-        # on value terms; the mailbox and the shutdown flag are *volatile* (another thread writes them): every read is a
-        # value of its own, so `reply is self._primary_thread_task` really compares the fetched task with a second read
-        from ..terms import NONE as _NONE, Evaluator as _Evaluator, const as _c
-        evp = _Evaluator(repo, fi, cfg)
-        evp.volatile = {MAILBOX, "self._shuttingdown"}
-        LOCKT = ("sym", "self._running_lock")
-        heads = {n.id for n in cfg.nodes if n.kind in ("test", "for") and isinstance(n.owner, (ast.While, ast.For))}
-        n_exits = n_iter = 0
-        sd_exit = False
-        seen_clear = set()
-        for (pth, st_) in evp.run(back_stops=heads, limit=40000):
-            waits_ = [e for e in st_.events if e.kind == "call" and e.callee == f"{READY}.wait"]
-            if not waits_:
-                continue
-            after = st_.events[st_.events.index(waits_[-1]):]
-            fetches = [e for e in after if e.kind == "assign" and e.value[0] == "read" and e.value[2] == MAILBOX]
-            if not fetches:
-                if pth[-1][0] == cfg.exit.id:
-                    ob.violation(fi, fi.node, "the primary loop is left after a wake-up without looking at the mailbox", construct="exit without fetch")
-                continue
-            F = fetches[0].value
-            later = st_.events[st_.events.index(fetches[0]):]
-            # conditions established after the fetch, with the locks held when they were tested
-            c0 = fetches[0].ncond
-            conds = list(zip(st_.cond[c0:], st_.cond_held[c0:]))
-            none_ev = any(t == ("cmp", "is", F, _NONE) and v is True for ((t, v), _h) in conds)
-            same_ev = any(t[0] == "cmp" and t[1] == "is" and F in (t[2], t[3]) and any(x[0] == "read" and x[2] == MAILBOX and x != F for x in (t[2], t[3])) and v is True and LOCKT in h
-                          for ((t, v), h) in conds)
-            not_none = any(t == ("cmp", "is", F, _NONE) and v is False for ((t, v), _h) in conds)
-            runs = [e for e in later if e.kind == "call" and e.callee == "self._perform_spawn" and e.args[:1] == (F,)]
-            # ready.clear() only if no new task was posted (same task still in the mailbox, tested under the lock)
-            for e in later:
-                if e.kind == "call" and e.callee == f"{READY}.clear":
-                    cc = list(zip(st_.cond[c0:e.ncond], st_.cond_held[c0:e.ncond]))
-                    ok = LOCKT in e.held and any(t[0] == "cmp" and t[1] == "is" and F in (t[2], t[3]) and v is True and LOCKT in h and
-                                                 any(x[0] == "read" and x[2] == MAILBOX and x != F for x in (t[2], t[3])) for ((t, v), h) in cc)
-                    if id(e.node) not in seen_clear or not ok:
-                        seen_clear.add(id(e.node))
-                        ob.site(fi, e.node, "ready.clear() only if no new task was posted", ok=ok)
-                    if not ok:
-                        ob.violation(fi, e.node, "ready.clear() is not guarded by `reply is self._primary_thread_task` under the lock: a freshly posted task loses its wake-up")
-            end = pth[-1][0]
-            if end == cfg.exit.id:
-                n_exits += 1
-                if any(t[0] == "read" and t[2] == "self._shuttingdown" and v is True for ((t, v), _h) in conds):
-                    sd_exit = True
-                ob.site(fi, fi.node, "loop exit path", reply_is_None=none_ev, reply_is_mailbox_under_lock=same_ev)
-                if not (none_ev or same_ev):
-                    ob.violation(fi, fi.node, "the primary loop is left without evidence that the mailbox holds nothing unconsumed (neither `reply is None` nor `reply is self._primary_thread_task` under the lock)",
-                                 construct="loop exit without mailbox evidence", path=cfg.describe_path(pth))
-            if end == cfg.exit.id or (end in heads and pth[-1][1] != ""):
-                n_iter += 1
-                if not none_ev and not runs:
-                    ob.violation(fi, fetches[0].node, "a reply taken from the mailbox can be skipped without being executed", path=cfg.describe_path(pth))
-                if none_ev and runs:
-                    ob.violation(fi, fetches[0].node, "the primary loop runs a task although the mailbox was empty")
-        ob.require(n_exits >= 2, f"{n_exits} exit paths of the primary loop (floor 2)")
-        ob.require(n_iter >= 3, f"{n_iter} iteration paths of the primary loop (floor 3)")
-        ob.site(fi, fi.node, "an exit guarded by _shuttingdown exists (busy primary leaves after shutdown)", ok=sd_exit)
-        if not sd_exit:
-            ob.violation(fi, fi.node, "no loop exit is taken when _shuttingdown is set after a task: the primary thread would never leave", construct="no-shutdown-exit")
+        check_primary_loop(repo, ob)
 
     # ---- C09.j trigger_shutdown: flag + wake-up of an idle primary
     ft = repo.func(f"{POOL}.trigger_shutdown")
